@@ -168,7 +168,125 @@ Section GatherOk.
       destruct (omapM_fail xs O) as (x0 & Hx0 & Hf0 & E0).
       unfold gather_seq. rewrite Ea, E0. apply as_failure_retype. now apply U.
   Qed.
+
+  (* ---- the Result-collecting region: items return `Result`, rayon's `collect::<Result<Vec<_>, E>>()` ---- *)
+  Lemma all_ok_omapM xs : (forall x, In x xs -> is_ok (f x) = true) -> is_ok (omapM f xs) = true.
+  Proof.
+    induction xs as [|x t IH]; intros H; cbn [omapM]; [reflexivity|].
+    pose proof (H x (or_introl eq_refl)) as Hx. destruct (f x) as [y| | |]; try discriminate. cbn [bind].
+    specialize (IH (fun z Hz => H z (or_intror Hz))). destruct (omapM f t); try discriminate. reflexivity.
+  Qed.
+
+  Lemma fpf_none_ok xs : forall k ran, (forall x, In x xs -> is_ok (f x) = true) -> first_panic_from k ran f xs = None.
+  Proof.
+    induction xs as [|x t IH]; intros k ran H; cbn [first_panic_from]; [reflexivity|].
+    pose proof (H x (or_introl eq_refl)) as Hx. destruct (f x) as [y| | |]; try discriminate. cbn [panics].
+    rewrite andb_false_r. apply IH. intros z Hz. apply H. now right.
+  Qed.
+
+  Lemma fpf_some xs : forall k ran e, first_panic_from k ran f xs = Some e ->
+    exists x, In x xs /\ is_ok (f x) = false /\ e = as_failure (f x).
+  Proof.
+    induction xs as [|x t IH]; intros k ran e H; cbn [first_panic_from] in H; [discriminate|].
+    destruct (existsb (Nat.eqb k) ran && panics (f x)) eqn:E.
+    - inversion H; subst e. apply andb_true_iff in E. destruct E as [_ E]. exists x. split; [now left|].
+      split; [|reflexivity]. destruct (f x); cbn in *; congruence.
+    - destruct (IH _ _ _ H) as (z & Hz & Hf & He). exists z. split; [now right | auto].
+  Qed.
+
+  Lemma fpf_none_inv xs : forall k ran, first_panic_from k ran f xs = None ->
+    forall j x, nth_error xs j = Some x -> In (k + j) ran -> panics (f x) = false.
+  Proof.
+    induction xs as [|x0 t IH]; intros k ran H j x Hj Hin; [destruct j; discriminate|].
+    cbn [first_panic_from] in H. destruct (existsb (Nat.eqb k) ran && panics (f x0)) eqn:E; [discriminate|].
+    destruct j as [|j]; cbn [nth_error] in Hj.
+    - inversion Hj; subst x0. apply andb_false_iff in E. destruct E as [E | E]; [|exact E].
+      exfalso. rewrite Nat.add_0_r in Hin.
+      assert (C : existsb (Nat.eqb k) ran = true) by (apply existsb_exists; exists k; split; [exact Hin | apply Nat.eqb_refl]).
+      congruence.
+    - apply (IH (S k) ran H j x Hj). replace (S k + j) with (k + S j) by lia. exact Hin.
+  Qed.
+
+  Lemma rec_none_ok pi xs : (forall x, In x xs -> is_ok (f x) = true) -> recorded_error pi f xs = None.
+  Proof.
+    intros H. induction pi as [|i t IH]; cbn [recorded_error]; [reflexivity|].
+    destruct (nth_error xs i) as [x|] eqn:E; [|exact IH].
+    pose proof (H x (nth_error_In _ _ E)) as Hx. destruct (f x); try discriminate. exact IH.
+  Qed.
+
+  Lemma rec_some pi xs k : recorded_error pi f xs = Some k -> exists x, In x xs /\ f x = Err k.
+  Proof.
+    induction pi as [|i t IH]; cbn [recorded_error]; [discriminate|].
+    destruct (nth_error xs i) as [x|] eqn:E; [|exact IH].
+    destruct (f x) as [y|k'| |] eqn:Ex; try exact IH.
+    intros H. inversion H; subst k'. exists x. split; [eapply nth_error_In; eauto | exact Ex].
+  Qed.
+
+  Lemma rec_none_inv pi xs : recorded_error pi f xs = None ->
+    (forall i x, In i pi -> nth_error xs i = Some x -> returns_err (f x) = false) /\ started pi f xs = pi.
+  Proof.
+    induction pi as [|i t IH]; cbn [recorded_error started]; intros H; [split; [intros i x []|reflexivity]|].
+    destruct (nth_error xs i) as [x|] eqn:E.
+    - destruct (f x) as [y|k| |] eqn:Ex; try discriminate; destruct (IH H) as [H1 H2]; cbn [returns_err]; rewrite H2;
+        (split; [|reflexivity]); intros j z [<- | Hj] Hz; try (now apply (H1 j z));
+        rewrite E in Hz; inversion Hz; subst z; rewrite Ex; reflexivity.
+    - destruct (IH H) as [H1 H2]. rewrite H2. split; [|reflexivity].
+      intros j z [<- | Hj] Hz; [congruence | now apply (H1 j z)].
+  Qed.
+
+  (* success, and the value on success, do not depend on the schedule *)
+  Theorem gather_result_ok pi xs ys : schedule (length xs) pi ->
+    gather_seq f xs = Ok ys -> gather_result_par pi f xs = Ok ys.
+  Proof.
+    intros P H. unfold gather_result_par. pose proof (omapM_ok_all xs ys H) as A.
+    rewrite (fpf_none_ok xs 0 _ A), (rec_none_ok pi xs A). now rewrite gather_par_eq_seq.
+  Qed.
+
+  (* on failure the region fails with the failure — the returned `Err`, or the panic — of SOME failing item *)
+  Theorem gather_result_fail pi xs : schedule (length xs) pi -> is_ok (gather_seq f xs) = false ->
+    exists x, In x xs /\ is_ok (f x) = false /\ gather_result_par pi f xs = as_failure (f x).
+  Proof.
+    intros P H. unfold gather_result_par.
+    destruct (first_panic_from 0 (started pi f xs) f xs) as [e|] eqn:Ep.
+    - destruct (fpf_some xs 0 _ e Ep) as (x & Hx & Hf & He). exists x. auto.
+    - destruct (recorded_error pi f xs) as [k|] eqn:Er.
+      + destruct (rec_some pi xs k Er) as (x & Hx & Ex). exists x. rewrite Ex. auto.
+      + exfalso. destruct (rec_none_inv pi xs Er) as [Hne Hst]. rewrite Hst in Ep.
+        assert (A : forall x, In x xs -> is_ok (f x) = true).
+        { intros x Hx. destruct (In_nth_error _ _ Hx) as [i Hi].
+          assert (Hin : In i pi).
+          { apply (Permutation_in i (Permutation_sym P)). apply in_seq.
+            assert (i < length xs) by (apply nth_error_Some; congruence). lia. }
+          pose proof (Hne i x Hin Hi) as N1. pose proof (fpf_none_inv xs 0 pi Ep i x Hi Hin) as N2.
+          destruct (f x); cbn in *; congruence. }
+        unfold gather_seq in H. rewrite (all_ok_omapM xs A) in H. discriminate.
+  Qed.
+
+  (* hence: when all failing items fail alike — here: when every item error has the same kind and no item
+     panics — the error rayon happens to keep is the one the serial collect returns *)
+  Theorem gather_result_eq_seq pi xs : schedule (length xs) pi -> fail_alike f xs ->
+    gather_result_par pi f xs = gather_seq f xs.
+  Proof.
+    intros P U. destruct (is_ok (gather_seq f xs)) eqn:O.
+    - destruct (gather_seq f xs) as [ys| | |] eqn:E; try discriminate. now apply gather_result_ok.
+    - destruct (gather_result_fail pi xs P O) as (x & Hx & Hf & Ea).
+      destruct (omapM_fail xs O) as (x0 & Hx0 & Hf0 & E0).
+      unfold gather_seq. rewrite Ea, E0. apply as_failure_retype. now apply U.
+  Qed.
 End GatherOk.
+
+Theorem result_region {X Y} (f : X -> outcome Y) (pi : list nat) (xs : list X) :
+  schedule (length xs) pi ->
+  (forall ys, gather_seq f xs = Ok ys -> gather_result_par pi f xs = Ok ys) /\
+  (is_ok (gather_seq f xs) = false ->
+   exists x, In x xs /\ is_ok (f x) = false /\ gather_result_par pi f xs = as_failure (f x)) /\
+  (fail_alike f xs -> gather_result_par pi f xs = gather_seq f xs).
+Proof.
+  intros P. split; [|split].
+  - intros ys. now apply gather_result_ok.
+  - now apply gather_result_fail.
+  - now apply gather_result_eq_seq.
+Qed.
 
 Theorem pessimistic_region {X Y} (f : X -> outcome Y) (pi : list nat) (xs : list X) :
   schedule (length xs) pi ->
@@ -189,13 +307,20 @@ Section ShapesOk.
   Variable f : X -> outcome Y.
 
   Theorem post_arm_par_eq_serial (post : list Y -> outcome R) pi xs :
-    schedule (length xs) pi -> post_arm (Rayon pi) f post xs = post_arm Serial f post xs.
-  Proof. intros P. unfold post_arm. cbn [gather]. now rewrite gather_par_eq_seq. Qed.
+    schedule (length xs) pi -> fail_alike f xs ->
+    post_arm (Rayon pi) f post xs = post_arm Serial f post xs.
+  Proof. intros P U. unfold post_arm. cbn [gather_result]. now rewrite gather_result_eq_seq. Qed.
 
   Theorem post_arm_abort_eq_serial (post : list Y -> outcome R) pi xs :
     schedule (length xs) pi -> fail_alike f xs ->
     post_arm (RayonAbort pi) f post xs = post_arm Serial f post xs.
-  Proof. intros P U. unfold post_arm. cbn [gather]. now rewrite gather_abort_eq_seq. Qed.
+  Proof. intros P U. unfold post_arm. cbn [gather_result]. now rewrite gather_abort_eq_seq. Qed.
+
+  (* whatever the items do: an Ok outcome and its value are those of the serial arm *)
+  Theorem post_arm_par_ok (post : list Y -> outcome R) pi xs ys :
+    schedule (length xs) pi -> gather_seq f xs = Ok ys ->
+    post_arm (Rayon pi) f post xs = post_arm Serial f post xs.
+  Proof. intros P H. unfold post_arm. cbn [gather_result]. rewrite H. now rewrite (gather_result_ok f pi xs ys P H). Qed.
 
   Lemma omapM_then_fold (combine : B -> Y -> B) xs : forall init,
     (do ys <- omapM f xs; Ok (fold_left combine ys init)) =
